@@ -2,6 +2,7 @@
 shimmed socket/ssl factories to a VSocket bound to a reference server."""
 import socket as _socket
 import ssl as _ssl
+import time as _time
 
 from . import seams, refms
 
@@ -62,6 +63,11 @@ class Session:
         self.client = None
         self.connect_outcome = None
         self.created = 0
+        # the clock seam: whatever the client module reads from the `time` module is this virtual clock; the harness decides
+        # how much time passes between two calls (idle_gap seconds before every call but the first)
+        self.clock = 1.0e6
+        self.idle_gap = 0
+        self.calls = 0
 
     # shims -----------------------------------------------------------------
     def _install(self):
@@ -115,13 +121,50 @@ class Session:
                     return v.__func__ if isinstance(v, staticmethod) else v
                 return getattr(self._real, name)
 
+        class TimeMod:
+            @staticmethod
+            def monotonic():
+                return sess.clock
+
+            @staticmethod
+            def time():
+                return sess.clock + 1.7e9
+
+            @staticmethod
+            def perf_counter():
+                return sess.clock
+
+            @staticmethod
+            def monotonic_ns():
+                return int(sess.clock * 1e9)
+
+            @staticmethod
+            def time_ns():
+                return int((sess.clock + 1.7e9) * 1e9)
+
+            @staticmethod
+            def sleep(x):
+                sess.clock += max(0, x)
+
         self._saved = (ms.socket, ms.ssl)
         ms.socket = _Fallback(SockMod, _socket)
         ms.ssl = _Fallback(SslMod, _ssl)
+        # clock: the module object (import time) or functions imported by name (from time import monotonic)
+        self._saved_time = {}
+        vt = _Fallback(TimeMod, _time)
+        for k, v in list(vars(ms).items()):
+            if v is _time:
+                self._saved_time[k] = v
+                setattr(ms, k, vt)
+            elif callable(v) and getattr(v, "__module__", None) == "time" and getattr(v, "__name__", "") in vars(TimeMod):
+                self._saved_time[k] = v
+                setattr(ms, k, getattr(vt, v.__name__))
 
     def _restore(self):
         ms = self.ns.managesieve
         ms.socket, ms.ssl = self._saved
+        for k, v in self._saved_time.items():
+            setattr(ms, k, v)
 
     # operations ------------------------------------------------------------
     def new_client(self, debug=False):
@@ -133,6 +176,9 @@ class Session:
         """call a public method of the client under shims, budget and watchdog"""
         o = Outcome()
         c = self.client
+        if self.calls:
+            self.clock += self.idle_gap
+        self.calls += 1
         self._install()
         import sys
         saved_stdout = sys.stdout
